@@ -5,9 +5,16 @@ import Mathlib.Analysis.Complex.Basic
 /-
   C16 — SENSE operator = explicit multi-coil encoding; batching invariant; recons minimise it.
 
-  Theorems about `Model/C16.lean` (`sense`, the transcription of `sigpy.mri.linop.Sense`), whose integer
-  formulas (`Gen.sense*`) are regenerated from the source on every run.  The model is tied to the real
-  operator by the correspondence streams of `harness/props/c16.py`.
+  Theorems about `sense` = `Gen.C16.senseGen` (Gen/SenseTree.lean): the FACTORY ITSELF is translator-generated — the
+  symbolic execution of the statements of `sigpy.mri.linop.Sense` (tseg = comm = None) into a term over the operator
+  vocabulary of Model/C16Base.lean, referring to the integer formulas `Gen.sense*` generated from the same AST nodes.
+  `sense_gen_eq` proves that term equal to the normal form `senseNF` (`[P,] F, S`; batched: `Vstack(axis=0)` of
+  `[P_c,] F, S_c`, every batch with the same Fourier operator and ITS weights, never batching again) under `Valid`
+  (ishape None or the maps' image shape; the weights array read as numpy broadcasts it); `fft_axes_per_coil`,
+  `fkindOf_perCoil`: the Fourier leaf is the FFT over exactly the image axes / the NUFFT at `coord` / `NUFFT(-coord).H`.
+  All operator theorems below are then about the generated definition.  The model is tied to the real operator by the
+  correspondence streams of `harness/props/c16.py` (values for every batch size, reified trees incl. the Fourier kind).
+  The recon part continues in Props/C16Recon.lean (generated `Gen.C16.recon…Call` + C14's routing theorems).
 
   Proved here:      forward formula (row-wise `sense_denote` and index-wise `sense_denote_index`), forward batch
                     invariance for EVERY batch size (shared and per-coil weights), partition of the coils by the
@@ -24,6 +31,208 @@ import Mathlib.Analysis.Complex.Basic
 -/
 namespace SigpyVerif.C16
 open SigpyVerif
+set_option linter.unusedTactic false
+set_option linter.unreachableTactic false
+
+/-! ### the generated factory and its normal form -/
+
+section nf
+variable {α : Type} [Add α] [Mul α] [Zero α]
+
+/-- `weights ** e` with the GENERATED exponent -/
+def wpow (sqrt : α → α) (w : α) : α := wpowE sqrt Gen.senseWeightsExp w
+
+/-- which Fourier operator the documented `Sense` uses: the FFT over the image axes for Cartesian data, the NUFFT at
+    `coord` otherwise (`NUFFT(-coord).H` with `transp_nufft`) -/
+def fkindOf (o : SenseArgs α) : FKind :=
+  match o.coordNdim with
+  | none => .fft (Gen.senseFftAxes (o.mpsNdim - 1)) o.mpsNdim
+  | some _ => if o.transp then .nufft true true else .nufft false false
+
+/-- NORMAL FORM of the unbatched branch: `[P,] F, S` -/
+def senseUnbatched (kind : FKind) (sqrt : α → α) (mps F : Mat α) (w : Weights α) : Chain α :=
+  let S := Leaf.multiplyMaps mps
+  let Fop := Leaf.fourier kind mps.length ((mps.headD []).length) F
+  match w with
+  | .none => [Fop, S]
+  | .shared w => [.multiplyWShared (w.map (wpow sqrt)), Fop, S]
+  | .perCoil w => [.multiplyWCoil (w.map fun row => row.map (wpow sqrt)), Fop, S]
+
+/-- the weights handed to batch `c` -/
+def batchWeights (w : Weights α) (c b n : Int) : Weights α :=
+  match w with
+  | .perCoil w =>
+      if Gen.senseWeightsSliced then .perCoil (pySlice w (Gen.senseWLo c b n) (Gen.senseWHi c b n)) else .perCoil w
+  | w => w
+
+/-- NORMAL FORM of the factory (what the generated `sense` is proved equal to in `sense_gen_eq`) -/
+def senseNF (o : SenseArgs α) : Op α :=
+  let n : Int := o.mps.length
+  let b : Int := batchOf n o.batch
+  if Gen.senseBatched n b then
+    let nb := Gen.senseNumCoilBatches n b
+    .vstack ((Gen.senseBatchRange nb n b).map fun c =>
+      senseUnbatched (fkindOf o) o.sqrt (pySlice o.mps (Gen.senseMpsLo c b n) (Gen.senseMpsHi c b n)) o.F
+        (batchWeights o.weights c b n))
+  else
+    .single (senseUnbatched (fkindOf o) o.sqrt o.mps o.F o.weights)
+
+/-- `ksp_ndim` as documented: the image dimension for Cartesian data, `coord.ndim - 1` otherwise -/
+def kspNdimDoc (o : SenseArgs α) : Int :=
+  match o.coordNdim with
+  | none => o.mpsNdim - 1
+  | some d => d - 1
+
+/-- the request describes arrays: `ishape` is `None` or the maps' image shape, and the weights array is read as
+    per-coil exactly when it has one more axis than k-space and one leading entry per coil (numpy broadcasting
+    against `[coils, k-space]`) -/
+structure Valid (o : SenseArgs α) : Prop where
+  ndim : 1 ≤ o.mpsNdim
+  ishape : o.ishapeLen = none ∨ o.ishapeLen = some (o.mpsNdim - 1)
+  wclass : (o.wNdim = kspNdimDoc o + 1 ∧ o.wShape0 = o.mps.length) ↔ ∃ m, o.weights = .perCoil m
+
+omit [Add α] [Mul α] [Zero α] in
+theorem Valid.withBatch {o : SenseArgs α} (hv : Valid o) (b : Option Int) : Valid { o with batch := b } :=
+  ⟨hv.ndim, hv.ishape, hv.wclass⟩
+
+end nf
+
+theorem pyMod_cases (a n : Int) (hn : 0 < n) (h : -n ≤ a ∧ a < n) : pyMod a n = if a < 0 then a + n else a := by
+  rw [pyMod_of_pos _ hn]
+  split_ifs with h0
+  · rw [← Int.add_emod_right]
+    exact Int.emod_eq_of_lt (by omega) (by omega)
+  · exact Int.emod_eq_of_lt (by omega) (by omega)
+
+/-- **fft_axes_per_coil.** The axes of the FFT that `Sense` builds, `range(-img_ndim, 0)` (GENERATED `Gen.senseFftAxes`),
+    on the `img_ndim + 1`-axis coil-image array are exactly the image axes: none is the coil axis 0 and every image axis
+    `1 … img_ndim` occurs — the transform is applied to each coil image separately, over all its axes. -/
+theorem fft_axes_per_coil (d : Int) (hd : 0 ≤ d) : fftPerCoil (Gen.senseFftAxes d) (d + 1) = true := by
+  unfold fftPerCoil
+  rw [Bool.and_eq_true, List.all_eq_true, List.all_eq_true]
+  constructor
+  · intro a ha
+    unfold Gen.senseFftAxes at ha
+    rw [mem_pyRange (by omega)] at ha
+    have hb : -(d + 1) ≤ a ∧ a < d + 1 := by omega
+    rw [pyMod_cases a (d + 1) (by omega) hb]
+    simp only [bne_iff_ne, ne_eq]
+    split_ifs <;> omega
+  · intro i hi
+    rw [mem_pyRange (by omega)] at hi
+    rw [List.any_eq_true]
+    unfold Gen.senseFftAxes
+    first
+      | refine ⟨i - (d + 1), ?_, ?_⟩
+        · rw [mem_pyRange (by omega)]; omega
+        · rw [pyMod_cases _ (d + 1) (by omega) (by omega)]
+          simp only [beq_iff_eq]
+          split_ifs <;> omega
+      | refine ⟨i, ?_, ?_⟩
+        · rw [mem_pyRange (by omega)]; omega
+        · rw [pyMod_cases _ (d + 1) (by omega) (by omega)]
+          simp only [beq_iff_eq]
+          split_ifs <;> omega
+
+section nf2
+variable {α : Type} [Add α] [Mul α] [Zero α]
+
+omit [Add α] [Mul α] [Zero α] in
+theorem fkindOf_perCoil (o : SenseArgs α) (hv : Valid o) : (fkindOf o).perCoil = true := by
+  unfold fkindOf
+  cases o.coordNdim with
+  | none =>
+    simp only [FKind.perCoil]
+    have := fft_axes_per_coil (o.mpsNdim - 1) (by have := hv.ndim; omega)
+    rwa [Int.sub_add_cancel] at this
+  | some d => cases o.transp <;> simp [FKind.perCoil]
+
+/-- the batching guard is false when `coil_batch_size` is `None` (the default is `num_coils`) -/
+theorem not_batched_default (n : Int) : Gen.senseBatched n (Gen.senseBatchDefault n) = false := by
+  unfold Gen.senseBatched Gen.senseBatchDefault; simp
+
+/-- the unbatched path of the GENERATED body is the chain `[P,] F, S` with the documented Fourier kind -/
+theorem senseBody_unbatched (rec : SenseArgs α → Op α) (a : SenseArgs α)
+    (hI : a.ishapeLen = none ∨ a.ishapeLen = some (a.mpsNdim - 1))
+    (h : Gen.senseBatched (a.mps.length : Int) (batchOf a.mps.length a.batch) = false) :
+    Gen.C16.senseBody rec a = .single (senseUnbatched (fkindOf a) a.sqrt a.mps a.F a.weights) := by
+  unfold Gen.C16.senseBody
+  have hb : (if a.batch.isNone then Gen.senseBatchDefault (a.mps.length : Int) else a.batch.getD 0) = batchOf a.mps.length a.batch := by
+    unfold batchOf; cases a.batch <;> simp
+  simp only [hb, h, Bool.false_eq_true, if_false]
+  congr 1
+  have hd : (if a.ishapeLen.isNone then a.mpsNdim - 1 else a.ishapeLen.getD 0) = a.mpsNdim - 1 := by
+    rcases hI with h | h <;> simp [h]
+  rw [hd]
+  cases hw : a.weights <;> cases hc : a.coordNdim <;> cases ht : a.transp <;>
+    simp [senseUnbatched, fkindOf, opMultiplyMaps, opFFT, opNUFFT, Chain.hermitian, Chain.mul, opMultiplyW, Weights.pow,
+      Weights.isSome, Chain.oshape, wpow, hc, ht]
+
+omit [Add α] [Mul α] [Zero α] in
+theorem flatMap_chains_single {β : Type} (l : List β) (f : β → Op α) (g : β → Chain α)
+    (h : ∀ c ∈ l, f c = .single (g c)) : (l.map f).flatMap Op.chains = l.map g := by
+  induction l with
+  | nil => rfl
+  | cons x l ih =>
+    simp only [List.map_cons, List.flatMap_cons]
+    rw [h x (by simp), ih (fun c hc => h c (by simp [hc]))]
+    rfl
+
+omit [Add α] [Mul α] [Zero α] in
+theorem kspNdim_gen (o : SenseArgs α) :
+    Gen.senseKspNdim (o.mpsNdim - 1) (o.coordNdim.getD 0) o.coordNdim.isNone = kspNdimDoc o := by
+  unfold Gen.senseKspNdim kspNdimDoc
+  cases o.coordNdim <;> simp
+
+omit [Add α] [Mul α] [Zero α] in
+/-- the GENERATED per-batch weights expression: per-coil weights are sliced like the coils, anything else is passed on -/
+theorem batchWeights_gen (o : SenseArgs α) (hv : Valid o) (c b : Int) :
+    (if ((!(!o.weights.isSome)) && Gen.senseWeightsPerCoil o.wNdim o.wShape0 (kspNdimDoc o) (o.mps.length : Int))
+      then Weights.sliceIf o.weights true (Gen.senseWLo c b o.mps.length) (Gen.senseWHi c b o.mps.length) else o.weights)
+      = batchWeights o.weights c b o.mps.length := by
+  have hw : Gen.senseWeightsPerCoil o.wNdim o.wShape0 (kspNdimDoc o) (o.mps.length : Int) = true ↔ ∃ m, o.weights = .perCoil m := by
+    rw [← hv.wclass]; unfold Gen.senseWeightsPerCoil; simp
+  cases hws : o.weights with
+  | none => simp [Weights.isSome, batchWeights]
+  | shared v =>
+    have : Gen.senseWeightsPerCoil o.wNdim o.wShape0 (kspNdimDoc o) (o.mps.length : Int) = false := by
+      rw [← Bool.not_eq_true, hw, hws]; simp
+    simp [this, batchWeights]
+  | perCoil m =>
+    have : Gen.senseWeightsPerCoil o.wNdim o.wShape0 (kspNdimDoc o) (o.mps.length : Int) = true := hw.mpr ⟨m, hws⟩
+    have hs : Gen.senseWeightsSliced = true := rfl
+    simp [this, batchWeights, Weights.isSome, Weights.sliceIf, hs]
+
+/-- **sense_gen_eq.** The translator-generated factory (`Gen.C16.senseGen`, the recursion unfolded twice) equals the
+    normal form `senseNF`: unbatched `[P,] F, S`; batched `Vstack(axis=0)` of `[P_c,] F, S_c` over the coil slices, each
+    batch with the same Fourier operator, `√` of ITS weights, and never batching again. -/
+theorem sense_gen_eq (o : SenseArgs α) (hv : Valid o) : sense o = senseNF o := by
+  unfold sense Gen.C16.senseGen senseNF
+  by_cases hb : Gen.senseBatched (o.mps.length : Int) (batchOf o.mps.length o.batch) = true
+  · simp only [hb, if_true]
+    have hrec : ∀ a' : SenseArgs α, (a'.ishapeLen = none ∨ a'.ishapeLen = some (a'.mpsNdim - 1)) → a'.batch = none →
+        Gen.C16.senseBody (fun _ => Op.single [Leaf.invalid]) a'
+          = .single (senseUnbatched (fkindOf a') a'.sqrt a'.mps a'.F a'.weights) :=
+      fun a' h1 h2 => senseBody_unbatched _ a' h1 (by rw [h2]; exact not_batched_default _)
+    generalize Gen.C16.senseBody (α := α) (fun _ => Op.single [Leaf.invalid]) = rec' at hrec ⊢
+    unfold Gen.C16.senseBody
+    have hbb : (if o.batch.isNone then Gen.senseBatchDefault (o.mps.length : Int) else o.batch.getD 0) = batchOf o.mps.length o.batch := by
+      unfold batchOf; cases o.batch <;> simp
+    have hax : Gen.senseVstackAxis = 0 := rfl
+    have hd : (if o.ishapeLen.isNone then o.mpsNdim - 1 else o.ishapeLen.getD 0) = o.mpsNdim - 1 := by
+      rcases hv.ishape with h | h <;> simp [h]
+    simp only [hbb, hb, if_true, hax, Op.vstackOf, hd, kspNdim_gen]
+    congr 1
+    apply flatMap_chains_single
+    intro c _
+    rw [hrec _ (Or.inr rfl) rfl]
+    simp only [batchWeights_gen o hv]
+    rfl
+  · have hb' : Gen.senseBatched (o.mps.length : Int) (batchOf o.mps.length o.batch) = false := by simpa using hb
+    rw [senseBody_unbatched _ o hv.ishape hb']
+    simp only [hb', Bool.false_eq_true, if_false]
+
+end nf2
 
 section operator
 variable {α : Type} [CommSemiring α]
@@ -47,13 +256,13 @@ theorem sum_map_sum {β : Type} (l : List β) (f : β → List α) :
     (l.map fun c => (f c).sum).sum = ((l.map f).flatten).sum := by
   simp [List.sum_flatten, List.map_map, Function.comp_def]
 
-theorem unbatched_apply (sqrt : α → α) (mps F : Mat α) (w : Weights α) (X : Mat α) :
-    (senseUnbatched sqrt mps F w).apply X = explicitSense sqrt F w mps (X.headD []) := by
+theorem unbatched_apply (kind : FKind) (hk : kind.perCoil = true) (sqrt : α → α) (mps F : Mat α) (w : Weights α) (X : Mat α) :
+    (senseUnbatched kind sqrt mps F w).apply X = explicitSense sqrt F w mps (X.headD []) := by
   cases w with
-  | none => simp [senseUnbatched, Chain.apply, Leaf.apply, explicitSense, encode, List.map_map, Function.comp_def]
-  | shared w => simp [senseUnbatched, Chain.apply, Leaf.apply, explicitSense, encode, List.map_map, Function.comp_def]
+  | none => simp [hk, senseUnbatched, Chain.apply, Leaf.apply, explicitSense, encode, List.map_map, Function.comp_def]
+  | shared w => simp [hk, senseUnbatched, Chain.apply, Leaf.apply, explicitSense, encode, List.map_map, Function.comp_def]
   | perCoil w =>
-    simp [senseUnbatched, Chain.apply, Leaf.apply, explicitSense, encode, List.map_map, Function.comp_def,
+    simp [hk, senseUnbatched, Chain.apply, Leaf.apply, explicitSense, encode, List.map_map, Function.comp_def,
       List.zipWith_map_left, List.zipWith_map_right]
 
 /-- the weights square root is what the source applies (`weights ** 0.5`) -/
@@ -62,17 +271,16 @@ theorem weights_exponent_is_half : Gen.senseWeightsExp = (1 : Rat) / 2 := by
 
 omit [CommSemiring α] in
 theorem wpow_eq_sqrt [Add α] [Mul α] [Zero α] (sqrt : α → α) (w : α) : wpow sqrt w = sqrt w := by
-  unfold wpow; rw [if_pos weights_exponent_is_half]
+  unfold wpow wpowE; rw [if_pos weights_exponent_is_half]
 
 /-- **sense_denote.** Without batching, `Sense(mps, weights)(x)` is the explicit multi-coil encoding:
     `out[c,k] = √w[k]·Σ_r F[k,r]·mps[c,r]·x[r]` for an arbitrary linear Fourier stage `F`. -/
-theorem sense_denote (o : SenseOpts α) (x : Vec α) :
+theorem sense_denote (o : SenseOpts α) (hv : Valid o) (x : Vec α) :
     (sense { o with batch := none }).apply [x] = explicitSense o.sqrt o.F o.weights o.mps x := by
-  unfold sense
-  have : Gen.senseBatched (o.mps.length : Int) (Gen.senseBatchDefault (o.mps.length : Int)) = false := by
-    unfold Gen.senseBatched Gen.senseBatchDefault; simp
-  simp only [this, Bool.false_eq_true, if_false, Op.apply]
-  rw [unbatched_apply]; rfl
+  rw [sense_gen_eq _ (hv.withBatch none)]
+  unfold senseNF batchOf
+  simp only [not_batched_default, Bool.false_eq_true, if_false, Op.apply]
+  rw [unbatched_apply _ (fkindOf_perCoil _ (hv.withBatch none))]; rfl
 
 /-- the weights slice uses the same bounds as the coil slice -/
 theorem weights_sliced_with_coils : Gen.senseWeightsSliced = true ∧
@@ -86,27 +294,28 @@ theorem batch_forwards_all : Gen.senseBatchKw = ["coord", "ishape", "transp_nuff
 
 /-- forward value of the batched operator: the concatenation over the batches of the explicit encoding of
     the batch's coils -/
-theorem batched_apply (o : SenseOpts α) (B : Nat) (x : Vec α) (hb : Gen.senseBatched (o.mps.length : Int) B = true) :
+theorem batched_apply (o : SenseOpts α) (hv : Valid o) (B : Nat) (x : Vec α) (hb : Gen.senseBatched (o.mps.length : Int) B = true) :
     (sense { o with batch := some (B : Int) }).apply [x] =
       ((Gen.senseBatchRange (Gen.senseNumCoilBatches o.mps.length B) o.mps.length B).map fun c =>
         explicitSense o.sqrt o.F (batchWeights o.weights c B o.mps.length)
           (pySlice o.mps (Gen.senseMpsLo c B o.mps.length) (Gen.senseMpsHi c B o.mps.length)) x).flatten := by
-  unfold sense
+  rw [sense_gen_eq _ (hv.withBatch _)]
+  unfold senseNF batchOf
   simp only [hb, if_true, Op.apply, List.map_map]
   congr 1
   apply List.map_congr_left
   intro c _
-  simp only [Function.comp, unbatched_apply]; rfl
+  simp only [Function.comp, unbatched_apply _ (fkindOf_perCoil _ (hv.withBatch (some (B : Int))))]; rfl
 
 /-- **sense_batch_invariant (forward).** For EVERY batch size `b ≥ 1` (dividing the number of coils or not,
     larger than it or not) the batched operator — `Vstack(axis=0)` of the per-batch `Sense` operators on the
     coil slices `mps[c·b:(c+1)·b]`, `c < ⌈n/b⌉` — has the same value as the unbatched one, with no weights,
     with k-space-shaped weights shared by the batches, and with per-coil weights sliced like the coils. -/
-theorem sense_batch_invariant (o : SenseOpts α) (B : Nat) (hB : 0 < B) (x : Vec α) :
+theorem sense_batch_invariant (o : SenseOpts α) (hv : Valid o) (B : Nat) (hB : 0 < B) (x : Vec α) :
     (sense { o with batch := some (B : Int) }).apply [x] = (sense { o with batch := none }).apply [x] := by
-  rw [sense_denote]
+  rw [sense_denote _ hv]
   by_cases hb : Gen.senseBatched (o.mps.length : Int) B = true
-  · rw [batched_apply o B x hb]
+  · rw [batched_apply o hv B x hb]
     cases hw : o.weights with
     | none =>
       simp only [batchWeights, explicitSense]
@@ -118,15 +327,16 @@ theorem sense_batch_invariant (o : SenseOpts α) (B : Nat) (hB : 0 < B) (x : Vec
       simp only [batchWeights, weights_sliced_with_coils.1, if_true, explicitSense,
         weights_sliced_with_coils.2.1, weights_sliced_with_coils.2.2, pySlice_zipWith]
       exact batch_slices_partition _ _ _ hB (by simp [List.length_zipWith])
-  · unfold sense
+  · rw [sense_gen_eq _ (hv.withBatch _)]
+    unfold senseNF batchOf
     simp only [hb, Bool.false_eq_true, if_false, Op.apply]
-    rw [unbatched_apply]; rfl
+    rw [unbatched_apply _ (fkindOf_perCoil _ (hv.withBatch (some (B : Int))))]; rfl
 
 /-- **sense_batch_partition.** The coil slices `[c·b, min((c+1)·b, n))`, `c < ⌈n/b⌉`, computed by the
     generated slice-bound formulas list the coils `0..n-1` in order, each once — for all `n` and `b ≥ 1`. -/
 theorem sense_batch_partition (n B : Nat) (hB : 0 < B) (hb : Gen.senseBatched (n : Int) B = true) :
     (batchCoils (n : Int) (some (B : Int))).flatten = pyRange0 n := by
-  unfold batchCoils
+  unfold batchCoils batchOf
   simp only [hb, if_true]
   apply batch_slices_partition _ _ _ hB
   rw [pyRange0, pyRange0_eq]; simp
@@ -194,18 +404,18 @@ def coilAdjTerm (conj : α → α) (FH : Vec α → Vec α) (r : Nat) (cd : Vec 
 def explicitAdjoint (conj : α → α) (FH : Vec α → Vec α) (R : Nat) (coils : List (Vec α × Option (Vec α))) (Y : Mat α) : Vec α :=
   (List.range R).map fun r => (List.zipWith (coilAdjTerm conj FH r) coils Y).sum
 
-theorem unbatched_adj (conj sqrt : α → α) (mps F : Mat α) (w : Weights α) (Y : Mat α) :
-    (senseUnbatched sqrt mps F w).adj conj Y =
+theorem unbatched_adj (kind : FKind) (hk : kind.perCoil = true) (conj sqrt : α → α) (mps F : Mat α) (w : Weights α) (Y : Mat α) :
+    (senseUnbatched kind sqrt mps F w).adj conj Y =
       [explicitAdjoint conj (fourierAdjRow conj (mps.headD []).length F) (mps.headD []).length (coilData sqrt w mps) Y] := by
   cases w with
   | none =>
-    simp [senseUnbatched, Chain.adj, Leaf.adj, explicitAdjoint, coilData, coilAdjTerm, weighRow, fourierAdjRow,
+    simp [hk, senseUnbatched, Chain.adj, Leaf.adj, explicitAdjoint, coilData, coilAdjTerm, weighRow, fourierAdjRow,
       List.zipWith_map_left, List.zipWith_map_right]
   | shared w =>
-    simp [senseUnbatched, Chain.adj, Leaf.adj, explicitAdjoint, coilData, coilAdjTerm, weighRow, fourierAdjRow,
+    simp [hk, senseUnbatched, Chain.adj, Leaf.adj, explicitAdjoint, coilData, coilAdjTerm, weighRow, fourierAdjRow,
       List.zipWith_map_left, List.zipWith_map_right]
   | perCoil w =>
-    simp only [senseUnbatched, Chain.adj, Leaf.adj, explicitAdjoint, coilData, List.foldl_cons, List.foldl_nil,
+    simp only [hk, if_true, senseUnbatched, Chain.adj, Leaf.adj, explicitAdjoint, coilData, List.foldl_cons, List.foldl_nil,
       List.zipWith_map_left, List.map_zipWith, List.cons.injEq, and_true]
     apply List.map_congr_left
     intro r _
@@ -217,15 +427,14 @@ theorem unbatched_adj (conj sqrt : α → α) (mps F : Mat α) (w : Weights α) 
 
 /-- **sense_adjoint_denote.** Without batching `Sense(mps, weights).H(y)` is
     `Σ_c conj(mps_c) ⊙ Fᴴ(conj(√w_c) ⊙ y_c)` with `Fᴴ` the conjugate transpose of the Fourier matrix. -/
-theorem sense_adjoint_denote (conj : α → α) (o : SenseOpts α) (Y : Mat α) :
+theorem sense_adjoint_denote (conj : α → α) (o : SenseOpts α) (hv : Valid o) (Y : Mat α) :
     (sense { o with batch := none }).adj conj Y =
       [explicitAdjoint conj (fourierAdjRow conj (o.mps.headD []).length o.F) (o.mps.headD []).length
         (coilData o.sqrt o.weights o.mps) Y] := by
-  unfold sense
-  have : Gen.senseBatched (o.mps.length : Int) (Gen.senseBatchDefault (o.mps.length : Int)) = false := by
-    unfold Gen.senseBatched Gen.senseBatchDefault; simp
-  simp only [this, Bool.false_eq_true, if_false, Op.adj]
-  exact unbatched_adj conj o.sqrt o.mps o.F o.weights Y
+  rw [sense_gen_eq _ (hv.withBatch none)]
+  unfold senseNF batchOf
+  simp only [not_batched_default, Bool.false_eq_true, if_false, Op.adj]
+  exact unbatched_adj _ (fkindOf_perCoil _ (hv.withBatch none)) conj o.sqrt o.mps o.F o.weights Y
 
 /-- **vstack_adjoint (Vstack.H = Hstack of the adjoints).**  If every stacked chain `mk c` has the adjoint
     `y ↦ Σ_{coils of c} conj(mps)·Fᴴ(√w·y)` over its own coils `sl c` and as many rows as coils, then the
@@ -275,8 +484,8 @@ theorem coilData_batch (sqrt : α → α) (w : Weights α) (mps : Mat α) (c b n
       weights_sliced_with_coils.2.2, pySlice_zipWith]
 
 omit [CommSemiring α] in
-theorem unbatched_rows [Add α] [Mul α] [Zero α] (sqrt : α → α) (mps F : Mat α) (w : Weights α) :
-    (senseUnbatched sqrt mps F w).rows = mps.length ∧ (senseUnbatched sqrt mps F w).imgLen = (mps.headD []).length := by
+theorem unbatched_rows [Add α] [Mul α] [Zero α] (kind : FKind) (sqrt : α → α) (mps F : Mat α) (w : Weights α) :
+    (senseUnbatched kind sqrt mps F w).rows = mps.length ∧ (senseUnbatched kind sqrt mps F w).imgLen = (mps.headD []).length := by
   cases w <;> simp [senseUnbatched, Chain.rows, Chain.imgLen]
 
 /-- a non-empty slice of a rectangular coil array starts with a row of the common length -/
@@ -295,10 +504,11 @@ theorem pySlice_head_length {β : Type} (mps : List (List β)) (R : Nat) (hrect 
     `y ↦ Σ_c conj(mps_c) ⊙ Fᴴ(conj √w_c ⊙ y_c)`, with no weights, k-space-shaped weights shared by the batches, and
     per-coil weights sliced like the coils.  `Op.adj` is the definition the driver runs against the real `A.H(y)`.
     Hypotheses = the arrays are arrays: every coil map has `R` entries, per-coil weights have one row per coil. -/
-theorem sense_adjoint_batch_invariant (conj : α → α) (o : SenseOpts α) (B : Nat) (hB : 0 < B) (R : Nat)
+theorem sense_adjoint_batch_invariant (conj : α → α) (o : SenseOpts α) (hv : Valid o) (B : Nat) (hB : 0 < B) (R : Nat)
     (hrect : ∀ m ∈ o.mps, m.length = R) (hw : ∀ wc, o.weights = .perCoil wc → wc.length = o.mps.length) (Y : Mat α) :
     (sense { o with batch := some (B : Int) }).adj conj Y = (sense { o with batch := none }).adj conj Y := by
-  rw [sense_adjoint_denote]
+  rw [sense_adjoint_denote _ _ hv]
+  have hkind := fkindOf_perCoil _ (hv.withBatch (some (B : Int)))
   by_cases hb : Gen.senseBatched (o.mps.length : Int) B = true
   · have hpart := batch_slices_partition (coilData o.sqrt o.weights o.mps) o.mps.length B hB
       (le_of_eq (coilData_length _ _ _ hw))
@@ -323,15 +533,16 @@ theorem sense_adjoint_batch_invariant (conj : α → α) (o : SenseOpts α) (B :
       rw [e1] at this
       simp only [List.length_nil] at this
       omega
-    unfold sense
+    rw [sense_gen_eq _ (hv.withBatch _)]
+    unfold senseNF batchOf
     simp only [hb, if_true]
     rw [vstack_adjoint conj (fourierAdjRow conj R o.F) R _ _
       (fun c => pySlice (coilData o.sqrt o.weights o.mps) (Gen.senseMpsLo c B o.mps.length) (Gen.senseMpsHi c B o.mps.length))
       ?_ ?_ ?_ Y, hpart, hR0]
     · intro c hc y
-      rw [unbatched_adj, coilData_batch, pySlice_head_length o.mps R hrect _ _ (hslice c hc)]
+      rw [unbatched_adj _ hkind, coilData_batch, pySlice_head_length o.mps R hrect _ _ (hslice c hc)]
     · intro c hc
-      rw [(unbatched_rows _ _ _ _).1]
+      rw [(unbatched_rows _ _ _ _ _).1]
       exact pySlice_length_congr _ _ (coilData_length _ _ _ hw).symm _ _
     · cases hbs : Gen.senseBatchRange (Gen.senseNumCoilBatches o.mps.length B) o.mps.length B with
       | nil =>
@@ -343,11 +554,12 @@ theorem sense_adjoint_batch_invariant (conj : α → α) (o : SenseOpts α) (B :
         exact absurd (List.length_eq_zero_iff.mp this.symm) hne
       | cons c0 rest =>
         simp only [List.map_cons, List.headD_cons]
-        rw [(unbatched_rows _ _ _ _).2]
+        rw [(unbatched_rows _ _ _ _ _).2]
         exact pySlice_head_length o.mps R hrect _ _ (hslice c0 (by rw [hbs]; simp))
-  · unfold sense
+  · rw [sense_gen_eq _ (hv.withBatch _)]
+    unfold senseNF batchOf
     simp only [hb, Bool.false_eq_true, if_false, Op.adj]
-    exact unbatched_adj conj o.sqrt o.mps o.F o.weights Y
+    exact unbatched_adj _ hkind conj o.sqrt o.mps o.F o.weights Y
 
 end adjoint
 
@@ -400,12 +612,12 @@ theorem encode_getD (F : Mat α) (x m : Vec α) (R k : Nat) (hk : k < F.length) 
 /-- **sense_denote_index.** Index-wise form of `sense_denote`: for a `K × R` Fourier matrix `F`,
     `Sense(mps, weights)(x)[c, k] = √w[c,k] · Σ_r F[k,r] · mps[c,r] · x[r]` for every coil `c < n` and k-space
     position `k < K` (`√w[k]` for weights without a coil axis, `1` without weights). -/
-theorem sense_denote_index (o : SenseOpts α) (x : Vec α) (n R K : Nat) (hs : Shaped o n R K) (hx : x.length = R)
+theorem sense_denote_index (o : SenseOpts α) (hv : Valid o) (x : Vec α) (n R K : Nat) (hs : Shaped o n R K) (hx : x.length = R)
     (c k : Nat) (hc : c < n) (hk : k < K) :
     (((sense { o with batch := none }).apply [x]).getD c []).getD k 0 =
       swAt o.sqrt o.weights c k *
         ∑ r ∈ Finset.range R, (o.F.getD k []).getD r 0 * ((o.mps.getD c []).getD r 0 * x.getD r 0) := by
-  rw [sense_denote]
+  rw [sense_denote _ hv]
   have hcm : c < o.mps.length := by rw [hs.mpsRows]; exact hc
   have hkF : k < o.F.length := by rw [hs.fRows]; exact hk
   have hm := hs.mpsRect _ (getD_mem o.mps c hcm [])
@@ -505,12 +717,12 @@ theorem weighRow_spec (o : SenseOpts α) (n R K : Nat) (hs : Shaped o n R K) (c 
 
 /-- **sense_adjoint_index.** Index-wise form of the adjoint the driver runs (`Op.adj` with `conj = star`):
     `Sense(mps, weights).H(y)[r] = Σ_c conj(mps[c,r]) · Σ_k conj(F[k,r]) · conj(√w[c,k]) · y[c,k]`. -/
-theorem sense_adjoint_index (o : SenseOpts α) (Y : Mat α) (n R K : Nat) (hs : Shaped o n R K)
+theorem sense_adjoint_index (o : SenseOpts α) (hv : Valid o) (Y : Mat α) (n R K : Nat) (hs : Shaped o n R K)
     (hY : Y.length = n) (hYr : ∀ row ∈ Y, row.length = K) (r : Nat) (hr : r < R) :
     (((sense { o with batch := none }).adj star Y).headD []).getD r 0 =
       ∑ c ∈ Finset.range n, star ((o.mps.getD c []).getD r 0) *
         ∑ k ∈ Finset.range K, star ((o.F.getD k []).getD r 0) * (star (swAt o.sqrt o.weights c k) * (Y.getD c []).getD k 0) := by
-  rw [sense_adjoint_denote]
+  rw [sense_adjoint_denote _ _ hv]
   simp only [List.headD_cons]
   by_cases hn : n = 0
   · subst hn
@@ -542,7 +754,7 @@ theorem sense_adjoint_index (o : SenseOpts α) (Y : Mat α) (n R K : Nat) (hs : 
     with `star = conj`): `⟨A x, y⟩ = ⟨x, Aᴴ y⟩`, i.e.
     `Σ_{c<n,k<K} (A x)[c,k]·conj y[c,k] = Σ_{r<R} x[r]·conj (Aᴴ y)[r]`, for the unbatched operator and — by
     `sense_batch_invariant` / `sense_adjoint_batch_invariant` — for EVERY `coil_batch_size ≥ 1`. -/
-theorem sense_dot_test (o : SenseOpts α) (x : Vec α) (Y : Mat α) (n R K : Nat) (hs : Shaped o n R K) (hx : x.length = R)
+theorem sense_dot_test (o : SenseOpts α) (hv : Valid o) (x : Vec α) (Y : Mat α) (n R K : Nat) (hs : Shaped o n R K) (hx : x.length = R)
     (hY : Y.length = n) (hYr : ∀ row ∈ Y, row.length = K) (b : Option Nat) (hb : ∀ B, b = some B → 0 < B) :
     let A := sense { o with batch := b.map Int.ofNat }
     ∑ c ∈ Finset.range n, ∑ k ∈ Finset.range K, ((A.apply [x]).getD c []).getD k 0 * star ((Y.getD c []).getD k 0)
@@ -552,8 +764,8 @@ theorem sense_dot_test (o : SenseOpts α) (x : Vec α) (Y : Mat α) (n R K : Nat
     cases b with
     | none => exact ⟨rfl, rfl⟩
     | some B =>
-      exact ⟨sense_batch_invariant o B (hb B rfl) x,
-        sense_adjoint_batch_invariant star o B (hb B rfl) R hs.mpsRect
+      exact ⟨sense_batch_invariant o hv B (hb B rfl) x,
+        sense_adjoint_batch_invariant star o hv B (hb B rfl) R hs.mpsRect
           (fun wc hw => (hs.wCoilRows wc hw).trans hs.mpsRows.symm) Y⟩
   rw [hA.1, hA.2]
   have key := sense_dot_test_abstract (Finset.range n) (Finset.range K) (Finset.range R)
@@ -568,32 +780,44 @@ theorem sense_dot_test (o : SenseOpts α) (x : Vec α) (Y : Mat α) (n R K : Nat
         (swAt o.sqrt o.weights c k * ∑ r ∈ Finset.range R, (o.F.getD k []).getD r 0 * ((o.mps.getD c []).getD r 0 * x.getD r 0))
           * star ((Y.getD c []).getD k 0) :=
     Finset.sum_congr rfl (fun c hc => Finset.sum_congr rfl (fun k hk => by
-      rw [sense_denote_index o x n R K hs hx c k (Finset.mem_range.mp hc) (Finset.mem_range.mp hk)]))
+      rw [sense_denote_index o hv x n R K hs hx c k (Finset.mem_range.mp hc) (Finset.mem_range.mp hk)]))
   have hRr : ∑ r ∈ Finset.range R, x.getD r 0 * star ((((sense { o with batch := none }).adj star Y).headD []).getD r 0)
       = ∑ r ∈ Finset.range R, x.getD r 0 * star (∑ c ∈ Finset.range n, star ((o.mps.getD c []).getD r 0) *
         ∑ k ∈ Finset.range K, star ((o.F.getD k []).getD r 0) * (star (swAt o.sqrt o.weights c k) * (Y.getD c []).getD k 0)) :=
-    Finset.sum_congr rfl (fun r hr => by rw [sense_adjoint_index o Y n R K hs hY hYr r (Finset.mem_range.mp hr)])
+    Finset.sum_congr rfl (fun r hr => by rw [sense_adjoint_index o hv Y n R K hs hY hYr r (Finset.mem_range.mp hr)])
   rw [hL, hRr]
   exact key
 
 end dot
 
 /-- the dot test over `ℂ` with complex conjugation -/
-theorem sense_dot_test_complex (o : SenseOpts ℂ) (x : Vec ℂ) (Y : Mat ℂ) (n R K : Nat) (hs : Shaped o n R K) (hx : x.length = R)
+theorem sense_dot_test_complex (o : SenseOpts ℂ) (hv : Valid o) (x : Vec ℂ) (Y : Mat ℂ) (n R K : Nat) (hs : Shaped o n R K) (hx : x.length = R)
     (hY : Y.length = n) (hYr : ∀ row ∈ Y, row.length = K) (B : Nat) (hB : 0 < B) :
     ∑ c ∈ Finset.range n, ∑ k ∈ Finset.range K,
         (((sense { o with batch := some (B : Int) }).apply [x]).getD c []).getD k 0 * (starRingEnd ℂ) ((Y.getD c []).getD k 0)
       = ∑ r ∈ Finset.range R, x.getD r 0 *
           (starRingEnd ℂ) ((((sense { o with batch := some (B : Int) }).adj (starRingEnd ℂ) Y).headD []).getD r 0) :=
-  sense_dot_test o x Y n R K hs hx hY hYr (some B) (fun _ h => by cases h; exact hB)
+  sense_dot_test o hv x Y n R K hs hx hY hYr (some B) (fun _ h => by cases h; exact hB)
 
 /-- a 2-coil, 2-pixel, 3-sample request with per-coil weights, batched one coil at a time -/
 def exampleOpts : SenseOpts ℂ where
   mps := [[1, 2], [3, 4]]
+  mpsNdim := 2
+  ishapeLen := none
+  coordNdim := some 2
   F := [[1, 0], [0, 1], [1, 1]]
   weights := .perCoil [[1, 4, 9], [0, 1, 4]]
+  wNdim := 2
+  wShape0 := 2
   batch := some 1
+  transp := false
   sqrt := id
+
+/-- non-vacuity: `Valid` is satisfiable (1-D image, three non-Cartesian samples, per-coil weights) -/
+example : Valid exampleOpts where
+  ndim := by decide
+  ishape := Or.inl rfl
+  wclass := by simp [exampleOpts, kspNdimDoc]
 
 /-- non-vacuity: the hypotheses of the index-wise theorems and of the dot test are satisfiable -/
 example : Shaped exampleOpts 2 2 3 where
